@@ -55,7 +55,7 @@ TDebug == /\ "VERIF_DEBUGL" \in DOMAIN IOEnv /\ ToString(l) = IOEnv.VERIF_DEBUGL
 TNext ==
   \/ TDebug
   \/ Inr(\E r \in RPCs : CliSkipOp(r) \/ SrvSkipOp(r) \/ CliAlloc(r) \/ CliSendNew(r) \/ CliNewRet(r) \/ CliNewFail(r) \/ CliSendNewFail(r)
-                       \/ CliReserve(r) \/ CliEmit(r) \/ CliEmitFail(r) \/ CliSendAbort(r) \/ CliSendRet(r) \/ CliHalf(r) \/ CliHalfRet(r)
+                       \/ CliReserve(r) \/ CliEmit(r) \/ CliEmitFail(r) \/ CliSendAbort(r) \/ CliSendRet(r) \/ CliBadSendRet(r) \/ CliHalf(r) \/ CliHalfRet(r)
                        \/ CliDequeue(r) \/ CliCredit(r) \/ CliRecvMsgRet(r) \/ CliRecvEnd(r) \/ CliFinStep(r) \/ CliWatchFire(r)
                        \/ CliCancelCAS(r) \/ CliCancelRcv(r) \/ CliEmitCancel(r) \/ CliHeaderRet(r) \/ CliTrailerRet(r) \/ SrvMetaDo(r) \/ SrvMetaRet(r) \/ HandlerStart(r) \/ SrvEmitReject(r)
                        \/ SrvEmitHdr(r) \/ SrvReserve(r) \/ SrvEmit(r) \/ SrvSendAbort(r) \/ SrvSendRet(r) \/ SrvRecvCtx(r)
